@@ -211,12 +211,12 @@ func IsParam(fn *ssa.Function, name string) func(ssa.Value) bool {
 	return func(v ssa.Value) bool {
 		v = Strip(v)
 		if p, ok := v.(*ssa.Parameter); ok {
-			return p.Parent() == fn && p.Name() == name
+			return p.Parent() == fn && (p.Name() == name || LogicalName(p) == name)
 		}
 		// a parameter captured by a closure is spilled to a heap cell at entry
 		if ld, ok := v.(*ssa.UnOp); ok && ld.Op == token.MUL {
 			if a, ok := ld.X.(*ssa.Alloc); ok {
-				return SpilledParam(a) != nil && SpilledParam(a).Parent() == fn && SpilledParam(a).Name() == name
+				return SpilledParam(a) != nil && SpilledParam(a).Parent() == fn && (SpilledParam(a).Name() == name || LogicalName(SpilledParam(a)) == name)
 			}
 		}
 		return false
